@@ -127,6 +127,11 @@ pub trait Property: Sync + Send + 'static {
     fn fuzz_sequences(&self) -> Vec<(&'static str, usize)> {
         vec![]
     }
+    /// Cost guard of the mutator (not a domain restriction of the property): a mutated case
+    /// that is not admissible is not handed to the fuzzer.
+    fn fuzz_admissible(&self, _case: &Self::Case) -> bool {
+        true
+    }
 }
 
 fn judge_raw(known_keys: &BTreeSet<String>, f: fn(&[u8]) -> Outcome, data: &[u8]) -> Result<(), String> {
@@ -856,10 +861,12 @@ impl<P: Property> FuzzCtx<P> {
 
     fn finish(&self, v: serde_json::Value, fallback: &[u8], max_size: usize) -> Vec<u8> {
         // only well-formed cases leave the mutator
-        if serde_json::from_value::<P::Case>(v.clone()).is_ok() {
-            let out = serde_json::to_vec(&v).unwrap();
-            if out.len() <= max_size {
-                return out;
+        if let Ok(c) = serde_json::from_value::<P::Case>(v.clone()) {
+            if self.prop.fuzz_admissible(&c) {
+                let out = serde_json::to_vec(&v).unwrap();
+                if out.len() <= max_size {
+                    return out;
+                }
             }
         }
         fallback.to_vec()
